@@ -134,6 +134,17 @@ class Session:
     def _member(self, cfg, form):
         if form == "obj":
             return cfg.build(standalone=False)
+        if form == "dict" and cfg.kind == "Amorph" and cfg.extra.get("_args_split"):
+            # the way a caller with several similar members writes them: ONE dict with the arguments they
+            # have in common, handed to each member as `args`, the rest as plain keywords
+            if not hasattr(self, "_common_args"):
+                self._common_args = {}
+            common = self._common_args.setdefault(cfg.inp, {"indicator": cfg.inp})
+            d = cfg.as_dict()
+            rest = {k: v for k, v in d.pop("args").items() if k != "indicator"}
+            d.update(rest)
+            d["args"] = common
+            return d
         if form == "dict":
             return cfg.as_dict()
         if form == "used":
@@ -185,10 +196,24 @@ class Session:
             hx = sc.get("hex", {})
             forms = sc.get("member_forms", ["obj"] * len(sc["inds"]))
             members = [self._member(c, f) for c, f in zip(sc["inds"], forms)]
-            self.obj = Hexital("verif", cands, members, timeframe=hx.get("timeframe"),
-                               timeframe_fill=hx.get("fill", False),
-                               candles_lifespan=hx.get("lifespan"),
-                               candlestick_type=hx.get("ctype"))
+            if hx.get("as_class_attrs") and (hx.get("timeframe") or hx.get("ctype")):
+                # the documented other way of configuring a strategy: a subclass that sets the timeframe
+                # and the candlestick type as class attributes and passes neither to the constructor
+                from hexital.utils.candlesticks import validate_candlesticktype
+
+                attrs = {}
+                if hx.get("timeframe"):
+                    attrs["timeframe"] = hx["timeframe"]
+                if hx.get("ctype"):
+                    attrs["candlestick_type"] = validate_candlesticktype(hx["ctype"])
+                Strategy = type("Strategy", (Hexital,), attrs)
+                self.obj = Strategy("verif", cands, members, timeframe_fill=hx.get("fill", False),
+                                    candles_lifespan=hx.get("lifespan"))
+            else:
+                self.obj = Hexital("verif", cands, members, timeframe=hx.get("timeframe"),
+                                   timeframe_fill=hx.get("fill", False),
+                                   candles_lifespan=hx.get("lifespan"),
+                                   candlestick_type=hx.get("ctype"))
             names = list(self.obj.indicators.keys())
             self.live = {i: n for i, n in enumerate(names)}
             self.active = list(range(len(names)))
